@@ -1,5 +1,5 @@
 #!/bin/bash
-# usage: mutrun.sh <name> <check-id> : runs bin/verifctl check <id> --tier quick against /var/tmp/mut/m (already mutated)
+# usage: mutrun.sh <name> <check-id> : runs bin/verifctl check <id> --tier quick against ${MUTDIR:-/var/tmp/mut/m} (already mutated)
 # with an isolated VERIF_DIR so that replays/evidence of the experiment do not touch /verif.
 name=$1; id=$2
 D=/var/tmp/mut/vd-$name
@@ -7,7 +7,7 @@ rm -rf $D; mkdir -p $D/bin
 cp /verif/known_findings.json /verif/properties.jsonl $D/
 cp -r /verif/rtsim /verif/stub /verif/simsrc $D/
 cp /verif/bin/rewriter $D/bin/
-( cd /var/tmp/mut/m && git diff --stat | tail -1 )
-VERIF_REPO=/var/tmp/mut/m VERIF_DIR=$D timeout 1800 /verif/bin/verifctl check $id --tier ${TIER:-quick} > /var/tmp/mut/$name.log 2>&1
+( cd ${MUTDIR:-/var/tmp/mut/m} && git diff --stat | tail -1 )
+VERIF_REPO=${MUTDIR:-/var/tmp/mut/m} VERIF_DIR=$D timeout 1800 /verif/bin/verifctl check $id --tier ${TIER:-quick} > /var/tmp/mut/$name.log 2>&1
 echo "exit=$?"
 grep -E 'VIOLATION|class:|KNOWN|TROUBLE|^C[0-9]+ ' /var/tmp/mut/$name.log | cut -c1-220 | head -20
